@@ -10,6 +10,8 @@ PATCHES = [
     "crosshair.opcode_intercept MapAddInterceptor skipped for Enum keys (SystemError in dict displays keyed by Enum)",
     "crosshair datetime/date/time/timedelta/timezone call patches removed (pure-Python datetime does not interoperate with the "
     "real tzinfo objects dateutil returns); dates are therefore always concrete",
+    "crosshair weakref.ref.__call__ patch removed (it runs gc.collect() on every dereference, ~30 ms each); harnesses keep strong "
+    "references to every weakly referenced value for the whole path, which makes dereferences deterministic",
 ]
 
 
@@ -34,6 +36,10 @@ def install():
 
     for real in (_dt.date, _dt.time, _dt.datetime, _dt.timedelta, _dt.timezone):
         _core._PATCH_REGISTRATIONS.pop(real, None)
+
+    import weakref as _weakref
+
+    _core._PATCH_REGISTRATIONS.pop(_weakref.ref.__call__, None)
 
     from crosshair import opcode_intercept as oi
 
